@@ -11,7 +11,6 @@ Check C03.C03_parse_answer : forall s,
 Check C03.C03_tree_shape : forall s o e, parse s = ParseOk o e -> parser_tree e.
 Check C03.C03_compile_total : forall e, parser_tree e ->
   forall o clk site, compile e o clk <> CPanic site.
-Check C03.C03_render_total : forall c mdt, exists text, scheme_text c mdt = text.
 Check C03.C03_display_total :
   (forall s m, parse s = ParseErr m -> m <> []) /\
   (forall k n, compile_error_text k n <> []).
